@@ -27,11 +27,16 @@ THEOREMS = [
     "PorepyVerif.C43.convert_exponent_add",
     "PorepyVerif.C43.derived_consistent",
     "PorepyVerif.C43.derived_monomial",
+    "PorepyVerif.C43.degree_agrees_with_rad",
     "PorepyVerif.C43.constants_roundtrip",
     "PorepyVerif.C43.constants_back_to_si",
     "PorepyVerif.C43.scaled_roots",
+    "PorepyVerif.C43.convert_roundtrip_real",
+    "PorepyVerif.C43.convert_compose_real",
+    "PorepyVerif.C43.convert_exponent_add_real",
+    "PorepyVerif.C43.convert_real_extends",
 ]
-LEAN_MODULES = ["PorepyVerif.C43.Props"]
+LEAN_MODULES = ["PorepyVerif.C43.Props", "PorepyVerif.C43.PropsReal"]
 AUDIT = "PorepyVerif/C43/Audit.lean"
 DRIVER = "PorepyVerif/C43/Driver.lean"
 N = {"quick": 400, "thorough": 40000}
@@ -45,14 +50,14 @@ RULE = ("kinds: convert 68% (Units kwargs: random subset of base units with posi
         "every base, derived, unknown name); constants 25% (one of the material data classes, 0-6 keywords with dyadic or "
         "decimal values, rarely an unknown keyword, construction in a random unit system, to_units chain of 1-3 systems ending "
         "mostly in pp.Units()); sim: fixed number per run (quick 2, thorough 120): SinglePhaseFlow, Cartesian 2x2 or 4x4, "
-        "compressible fluid, Dirichlet east/west with pressure drop, cell-wise source, 1-2 implicit Euler steps, scaled m, kg "
+        "compressible fluid, Dirichlet east/west with pressure drop (thorough: 40% of them in a square cut by 1-2 orthogonal fractures, mixed-dimensional with interface fluxes), cell-wise source, 1-2 implicit Euler steps, scaled m, kg "
         "(and K, mol, rad, which must not matter). non-trivial = convert with >=2 factors that the real code accepts, constants "
         "with a chain, every sim; distinct = distinct cases")
 TRUSTED = [
     "modelled, not verified: binary64 rounding of every operation (model computes over exact rationals; compared exactly when all "
     "scalings are powers of two and all exponents integers, else relative 1e-12)",
-    "non-integer exponents (x ** 0.5): correspondence only, evaluated by the Lean driver in binary64 (Float.pow) on the traversal "
-    "`factorParts` that `factorOf_eq_parts` ties to the verified `factorOf`; no theorem covers them",
+    "non-integer exponents (x ** 0.5): theorems over the reals (PropsReal.lean, Real.rpow on the traversal `factorParts`); the "
+    "correspondence evaluates the same traversal in binary64 (Float.pow) in the Lean driver; the rounding of pow is outside the theorems",
     "python float() is modelled for ASCII input `[ws][sign]digits[.digits][e[sign]digits][ws]`; inf, nan, digit separators '_' and "
     "non-ASCII digits/whitespace are not generated and not modelled; str.replace/str.split are modelled on lists of characters",
     "getattr(self, name): base units, properties and method names of class Units as the translator finds them; other object "
@@ -65,12 +70,25 @@ TRUSTED = [
 ]
 EXPLANATION = ("FULL for conversion: model = Units constructor, attribute lookup, unit-string grammar and conversion loop as coded, "
                "material constants construction / to_units; theorems convert_roundtrip, convert_compose (+ exponent addition), "
-               "derived_consistent / derived_monomial (about the formulas regenerated from units.py on this run), constants_roundtrip / "
-               "constants_back_to_si (about the SI_units tables regenerated from materials.py on this run). CORE (partial) for the "
-               "simulation claim: scaled_roots is the algebraic core; its hypothesis and the conclusion are checked on the real "
-               "SinglePhaseFlow model by the oracle.")
+               "derived_consistent / derived_monomial / degree_agrees_with_rad (about the formulas regenerated from units.py on this "
+               "run), constants_roundtrip / constants_back_to_si (about the SI_units tables regenerated from materials.py on this run). "
+               "Fractional exponents: convert_roundtrip_real, convert_compose_real, convert_exponent_add_real evaluate the same "
+               "traversal (factorParts) over the reals with Mathlib's Real.rpow (its laws are Mathlib theorems, not hypotheses); "
+               "convert_real_extends shows that this evaluation agrees with the exact rational model wherever all exponents are "
+               "integers. CORE (partial) for the simulation claim: scaled_roots is the algebraic core; its hypothesis and the "
+               "conclusion are checked on the real SinglePhaseFlow model (thorough: also mixed-dimensional with 1-2 fractures) by "
+               "the oracle. "
+               "DEGREE (observation, NOT a finding): `degree = rad*180/pi` looked inverted if an attribute meant 'size of one degree "
+               "in SI'. The documented meaning of every Units attribute is 'the simulation unit expressed in the unit the attribute is "
+               "named after' (m: length unit in metres; Pa: pressure unit in pascal). Read the same way, degree = the simulation ANGLE "
+               "unit expressed in degrees = rad*180/pi (1 rad = 180/pi degrees), which is the correct base-unit expression, and "
+               "convert_units(x, 'degree') takes a value given in degrees: 180 degrees and pi rad convert to the same simulation "
+               "value (theorem degree_agrees_with_rad, oracle key degree-not-pi-rad; a pi/180 coefficient would make 180 degrees and "
+               "pi rad differ by (180/pi)^2). The property text 'derived units agree with their base-unit expressions' therefore "
+               "holds for degree; the only imprecision is the docstring of convert_units, which says the value is 'in SI units' "
+               "although for 'degree' it is in degrees (and to_si=True returns degrees, not radians). No defect recorded.")
 ASSUMPTIONS = ["all unit scalings positive (hypothesis of the theorems; the generator never produces zero or negative scalings)",
-               "integer exponents in the theorems; fractional powers are compared numerically only"]
+               "integer exponents in the exact rational theorems; fractional exponents in the real-number theorems (PropsReal.lean)"]
 
 BASE = c43_translate.BASE
 GEN_LEAN = os.path.join(common.LEAN, "PorepyVerif", "C43", "Generated.lean")
@@ -257,11 +275,16 @@ def gen_unit_string(rng, tier):
         return rng.choice(["", "1", "-", " ", " 1 ", "- ", "1*m", "m*", "*", "m**2", "-*kg", " - ", "1 * Pa", "m*1"])
     n = rng.choice([1, 1, 2, 2, 3, 3, 4, 5] if tier == "quick" else [1, 2, 3, 4, 5, 6, 7, 8])
     fs = [gen_factor(rng)[0] for _ in range(n)]
-    if n >= 2 and rng.random() < 0.3:  # repeated symbol
-        s = rng.choice(BASE + DERIVED[:4])
-        i, j = rng.sample(range(n), 2)
-        fs[i] = s + "^" + rng.choice(INT_EXPS[:9])
-        fs[j] = s + rng.choice(["", "^" + rng.choice(INT_EXPS[:9])])
+    if n >= 2 and rng.random() < 0.35:  # repeated symbol, stratified: plain/plain, plain/caret, caret/plain, caret/caret
+        sym = rng.choice(BASE + DERIVED[:4])
+        i, j = sorted(rng.sample(range(n), 2))
+        first, second = rng.choice([("p", "p"), ("p", "c"), ("c", "p"), ("c", "c")])
+        caret = lambda: sym + "^" + rng.choice(INT_EXPS[:9])
+        fs[i] = sym if first == "p" else caret()
+        fs[j] = sym if second == "p" else caret()
+        if n >= 3 and rng.random() < 0.3:  # a third occurrence
+            k = rng.choice([x for x in range(n) if x not in (i, j)])
+            fs[k] = sym if rng.random() < 0.5 else caret()
     s = "*".join(fs)
     r = rng.random()
     if r < 0.35:
@@ -323,7 +346,9 @@ def gen_sim(rng, tier):
             units[b] = rng.choice(POW2)
     return {"kind": "sim", "units": units, "dp": rng.choice([1e5, 2.5e4, 0.0, 3e6]), "q": rng.choice([0.5, 0.0, 2.0, -0.25]),
             "perm": rng.choice([1e-11, 1e-13, 5e-10]), "poro": rng.choice([0.2, 0.05]), "compr": rng.choice([4e-10, 0.0, 1e-8]),
-            "nsteps": rng.choice([1, 2]), "cell_size": rng.choice([0.5, 0.5, 0.25]), "state_seed": rng.randrange(10 ** 6)}
+            "nsteps": rng.choice([1, 2]), "cell_size": rng.choice([0.5, 0.5, 0.25]), "state_seed": rng.randrange(10 ** 6),
+            "model": "flow" if (tier == "quick" or rng.random() < 0.6) else "fractured",
+            "fracture_indices": rng.choice([[0], [1], [0, 1]]), "frac_perm": rng.choice([1e-9, 1e-13]), "aperture": rng.choice([1e-3, 1e-2])}
 
 
 _FIELDS = {}
@@ -455,8 +480,6 @@ def compare(impl, model, case):
             if d:
                 return d
         if "err" in a or "err" in b:
-            if case["vtype"] == "intarray" and a.get("err") == "TypeError":
-                return None  # in-place arithmetic on an integer array fails at the first factor (see known finding)
             return None if a.get("err") == b.get("err") else f"convert_units({case['units']!r}): impl {a.get('err', 'ok')} model {b.get('err', 'ok')}"
         mv = b["float_vals"] if "float_vals" in b else b["vals"]
         if len(mv) != len(a["vals"]):
@@ -572,6 +595,12 @@ def _oracle_derived(u, tag):
                 return _fail(f"convert_units(3.5, {name!r}) / convert_units(3.5, {exp!r}) raised {type(e).__name__}: {e} (Units({tag}))", f"derived-{name}-string-raises")
             if not _relclose(a, b, 1e-13):
                 return _fail(f"convert_units(3.5, {name!r}, to_si={to_si}) = {a!r} but with {exp!r} it is {b!r} (Units({tag}))", f"derived-{name}-string-inconsistent")
+    try:
+        a, b = u.convert_units(180.0, "degree"), u.convert_units(float(np.pi), "rad")
+    except Exception as e:
+        return _fail(f"convert_units(180, 'degree') / convert_units(pi, 'rad') raised {type(e).__name__}: {e}", "degree-raises")
+    if not _relclose(a, b, 1e-13):
+        return _fail(f"180 degrees -> {a!r} simulation units but pi rad -> {b!r} (Units({tag}))", "degree-not-pi-rad")
     for form in ("", "1", "-", " "):
         try:
             r = u.convert_units(3.5, form)
@@ -651,14 +680,17 @@ def _oracle_convert(case):
     # 4. exponent addition for one symbol (which one rotates with the case)
     syms = BASE + DERIVED
     sym = syms[(len(s) + len(case["values"]) + len(case["kwargs"])) % len(syms)]
-    for p, q in ((2, -3), (1, 1), (-2, -1)):
+    pairs = [(f"{sym}^2*{sym}^-3", f"{sym}^-1"), (f"{sym}^1*{sym}^1", f"{sym}^2"), (f"{sym}^-2*{sym}^-1", f"{sym}^-3"),
+             (f"{sym}*{sym}", f"{sym}^2"), (f"{sym} * {sym} * {sym}", f"{sym}^3"), (f"{sym}^2*{sym}", f"{sym}^3"),
+             (f"{sym}*{sym}^-3", f"{sym}^-2"), (f"kg * {sym}^-3 * {sym}", f"kg*{sym}^-2")]
+    for lhs, rhs in pairs:
         try:
-            x = u.convert_units(2.5, f"{sym}^{p}*{sym}^{q}", to_si=to_si)
-            y = u.convert_units(2.5, f"{sym}^{p + q}", to_si=to_si)
+            x = u.convert_units(2.5, lhs, to_si=to_si)
+            y = u.convert_units(2.5, rhs, to_si=to_si)
         except Exception as e:
-            return _fail(f"convert_units(2.5, '{sym}^{p}*{sym}^{q}') or '{sym}^{p + q}' raised {type(e).__name__}: {e}", "exponent-add-raises")
+            return _fail(f"convert_units(2.5, {lhs!r}) or {rhs!r} raised {type(e).__name__}: {e}", "exponent-add-raises")
         if not _relclose(x, y, 1e-13):
-            return _fail(f"convert_units(2.5, '{sym}^{p}*{sym}^{q}') = {x!r} but '{sym}^{p + q}' gives {y!r} (Units({tag}))", "exponent-add")
+            return _fail(f"convert_units(2.5, {lhs!r}) = {x!r} but {rhs!r} gives {y!r} (Units({tag}))", "exponent-add")
     return None
 
 
@@ -752,13 +784,22 @@ def _sim_class():
                 self._c43_it = 0
             return done, False
 
+    from porepy.applications.md_grids.model_geometries import SquareDomainOrthogonalFractures
+
+    class FracturedFlow(SquareDomainOrthogonalFractures, Flow):
+        """the same problem in a unit square cut by one or two orthogonal fractures (mixed-dimensional: 2d matrix,
+        1d fractures, 0d intersection, interface fluxes)"""
+
     _SIM["cls"] = Flow
+    _SIM["fractured"] = FracturedFlow
     return Flow
 
 
 def _sim_model(case, units):
     import porepy as pp
-    solid = pp.SolidConstants(permeability=case["perm"], porosity=case["poro"], specific_storage=2e-9)
+    fractured = case.get("model", "flow") == "fractured"
+    solid = pp.SolidConstants(permeability=case["perm"], porosity=case["poro"], specific_storage=2e-9,
+                              **({"normal_permeability": case["frac_perm"], "residual_aperture": case["aperture"]} if fractured else {}))
     fluid = pp.FluidComponent(density=1000.0, viscosity=1e-3, compressibility=case["compr"])
     ref = pp.ReferenceVariableValues(pressure=1e5)
     u = pp.Units(**units)
@@ -766,7 +807,11 @@ def _sim_model(case, units):
               "units": u, "c43_dp": case["dp"], "c43_q": case["q"],
               "meshing_arguments": {"cell_size": u.convert_units(case["cell_size"], "m")},
               "time_manager": pp.TimeManager([0, 10.0 * case["nsteps"]], 10.0, constant_dt=True)}
-    return _sim_class()(params)
+    _sim_class()
+    if fractured:
+        params["fracture_indices"] = case["fracture_indices"]
+        return _SIM["fractured"](params)
+    return _SIM["cls"](params)
 
 
 def _sim_run(case, units):
@@ -778,6 +823,9 @@ def _sim_run(case, units):
     sds = m.mdg.subdomains()
     p = m.equation_system.get_variable_values(variables=[m.pressure_variable], time_step_index=0)
     out = {"pressure": m.units.convert_units(p, "Pa", to_si=True)}
+    if m.mdg.interfaces():
+        lam = m.equation_system.get_variable_values(variables=[m.interface_darcy_flux_variable], time_step_index=0)
+        out["interface_darcy_flux"] = m.units.convert_units(lam, "Pa * m^2 * s^-1", to_si=True)
     for name, unit in (("darcy_flux", "Pa * m^2 * s^-1"), ("fluid_flux", "kg * m^-1 * s^-1")):
         out[name] = m.units.convert_units(m.equation_system.evaluate(getattr(m, name)(sds)), unit, to_si=True)
     return out
@@ -802,13 +850,19 @@ def _oracle_sim(case):
         scaled = _sim_run(case, case["units"])
     except Exception as e:
         return _fail(f"SinglePhaseFlow with Units({tag}) raised {type(e).__name__}: {str(e)[:200]}", "sim-raises")
+    # natural magnitudes (SI) of the fields, so that an identically vanishing field (dp = 0, q = 0: the fluxes are rounding
+    # noise around zero) is not compared relative to its own noise: k/mu * p_ref, times rho for the mass flux
+    nat = case["perm"] / 1e-3 * 1e5
+    floor = {"pressure": 1e5, "darcy_flux": nat, "interface_darcy_flux": nat, "fluid_flux": 1e3 * nat}
     for name in ref:
         a, b = ref[name], scaled[name]
-        scale = max(np.max(np.abs(a)), 1e-300)
+        scale = max(np.max(np.abs(a)), 1e-6 * floor[name])
         if a.shape != b.shape or not np.all(np.isfinite(b)) or np.max(np.abs(a - b)) > 1e-8 * scale:
             dev = float(np.max(np.abs(a - b)) / scale) if a.shape == b.shape else float("nan")
             return _fail(f"SinglePhaseFlow with Units({tag}): {name} in SI differs from the unscaled run by {dev:.3e} relative "
                          f"(dp={case['dp']}, q={case['q']}, perm={case['perm']}, steps={case['nsteps']})", f"sim-{name}-not-invariant")
+    if case.get("model", "flow") == "fractured":
+        return None  # several equations with different scalings T: only the solutions are compared
     # hypothesis of scaled_roots: R'(S x) = T R(x) at a random state
     rs = np.random.default_rng(case["state_seed"])
     p = 1e5 * (1 + rs.random(ref["pressure"].size))
@@ -877,6 +931,10 @@ def shrink_candidates(case):
             yield dict(case, nsteps=1)
         if case["cell_size"] != 0.5:
             yield dict(case, cell_size=0.5)
+        if case.get("model") == "fractured":
+            yield dict(case, model="flow")
+            if len(case["fracture_indices"]) > 1:
+                yield dict(case, fracture_indices=case["fracture_indices"][:1])
 
 
 def stats(cases, impl_outs):
